@@ -15,3 +15,13 @@ def validate_traces_parallel(ctx, module, cfg, traces, family=None, timeout=1500
         for off, f in futs:
             out += [(ti + off, line, ev, want) for (ti, line, ev, want) in f.result()]
     return out
+
+
+def fast_tmp(ctx, name):
+    """Scratch directory for driver work dirs: on tmpfs when available (the drivers fsync a lot;
+    flock, rename and friends behave the same there), removed at exit."""
+    import atexit, os, shutil, tempfile
+    base = "/dev/shm" if os.path.isdir("/dev/shm") and os.access("/dev/shm", os.W_OK) else ctx.scratch
+    d = tempfile.mkdtemp(prefix="verif-%s-%s-" % (ctx.pid, name), dir=base)
+    atexit.register(shutil.rmtree, d, True)
+    return d
